@@ -394,12 +394,20 @@ impl ExtremeMapCase {
     }
 }
 
-pub struct RemapExtreme;
+/// `dual`: only dual connectors with one class per id (tens of seconds per case: run as few, evenly sharded cases);
+/// otherwise matrix and raw connectors.
+pub struct RemapExtreme {
+    pub dual: bool,
+}
 
 impl Sub for RemapExtreme {
     type Case = ExtremeMapCase;
     fn name(&self) -> &'static str {
-        "remap_extreme"
+        if self.dual {
+            "remap_extreme_dual"
+        } else {
+            "remap_extreme"
+        }
     }
     fn max_shrink_iters(&self) -> u32 {
         12
@@ -413,7 +421,7 @@ impl Sub for RemapExtreme {
             any::<u16>(),
             0u8..6,
             any::<u16>(),
-            prop_oneof![6 => Just(0u8), 3 => Just(1u8), 1 => Just(2u8)],
+            if self.dual { Just(2u8).boxed() } else { prop_oneof![2 => Just(0u8), 1 => Just(1u8)].boxed() },
         )
             .prop_map(|(n_big, n_small, big_left, perm, k, history, salt, conn)| ExtremeMapCase { n_big, n_small, big_left, perm, k, history, salt, conn })
             .boxed()
@@ -598,8 +606,9 @@ pub fn run(opts: &Opts) -> Report {
     crate::props::committed_replays(&m, opts, &mut rep);
     run_sub(&a, opts, opts.tier.pick(8000, 120_000), &mut rep);
     run_sub(&m, opts, opts.tier.pick(10_000, 120_000), &mut rep);
-    crate::props::committed_replays(&RemapExtreme, opts, &mut rep);
-    run_sub(&RemapExtreme, opts, opts.tier.pick(64, 1000), &mut rep);
+    crate::props::committed_replays(&RemapExtreme { dual: false }, opts, &mut rep);
+    run_sub(&RemapExtreme { dual: false }, opts, opts.tier.pick(96, 1600), &mut rep);
+    run_sub(&RemapExtreme { dual: true }, opts, opts.tier.pick(16, 96), &mut rep);
     let _ = guard(|| ());
     rep
 }
@@ -607,5 +616,5 @@ pub fn run(opts: &Opts) -> Report {
 pub fn replay(path: &Path) -> Option<i32> {
     crate::props::try_strict(&Remap, "C06", path)
         .or_else(|| crate::props::try_strict(&Malformed, "C06", path))
-        .or_else(|| crate::props::try_strict(&RemapExtreme, "C06", path))
+        .or_else(|| crate::props::try_strict(&RemapExtreme { dual: false }, "C06", path))
 }
